@@ -3,6 +3,7 @@ import KfacVerif.Driver.Misc
 import KfacVerif.Driver.Neox
 import KfacVerif.Driver.Precond
 import KfacVerif.Driver.Alg
+import KfacVerif.Driver.NeoxLayer
 
 namespace KV.Driver
 
@@ -28,6 +29,8 @@ def dispatch (line : String) : String :=
     | "neox" => neoxOp args
     | "precond" => precondOp args
     | "alg" => algOp args
+    | "neoxl" => neoxLayerOp args
+    | "neoxckpt" => neoxCkptOp args
     | _ => "bad-op"
 
 end KV.Driver
